@@ -209,6 +209,78 @@ def scenario(fi, ki, pi, global_repo, prior):
         shutil.rmtree(tmp, ignore_errors=True)
 
 
+def string_main_scenario(ki):
+    """the main model comes from a string (no file name: registered as anonymous<N>), the files of
+    its closure are found by a GlobalRepo provider pattern; one of them fails.  The global
+    repository must hold after the failure exactly what it held before (one earlier successful
+    string load has cached lib/a.m), and after the repair the load succeeds"""
+    from textx import metamodel_from_str
+    from textx.exceptions import TextXSemanticError
+    import textx.scoping.providers as P
+    import shutil
+    kind = KINDS[ki]
+    if kind in ('missing-import', 'model-processor'):
+        return []
+    tmp = tempfile.mkdtemp(prefix='c18s_')
+    problems = []
+    try:
+        os.mkdir(os.path.join(tmp, 'lib'))
+        with open(os.path.join(tmp, 'lib', 'a.m'), 'w') as f:
+            f.write('item a1')
+        mm = metamodel_from_str(GRAMMAR, global_repository=True)
+        mm.register_scope_providers({'*.*': P.PlainNameGlobalRepo(os.path.join(tmp, 'lib', '*.m'))})
+
+        def item_proc(it):
+            if it.boom:
+                raise TextXSemanticError('object processor rejects %s' % it.name)
+        mm.register_obj_processors({'Item': item_proc})
+
+        def repo():
+            return {os.path.basename(k): v for k, v in mm._tx_model_repository.all_models.filename_to_model.items()}
+        try:
+            mm.model_from_str('item m0 -> a1')
+        except Exception as e:  # noqa
+            return ['harness: the prior string load fails: %s' % e]
+        before = repo()
+        bad = {'syntax': 'item b1 item %', 'unknown-reference': 'item b1 -> nowhere',
+               'object-processor': 'item b1 ! boom'}[kind]
+        with open(os.path.join(tmp, 'lib', 'b.m'), 'w') as f:
+            f.write(bad)
+        for attempt in (1, 2):
+            try:
+                mm.model_from_str('item m1 -> a1 item m2 -> b1')
+                return ['harness: the broken closure loads']
+            except Exception as e:  # noqa
+                pass
+            after = repo()
+            # file-backed entries must be untouched; string models are registered under invented names
+            # (every one as anonymous0, replacing the previous): none of them may be the failed attempt's
+            files_before = {k: v for k, v in before.items() if not k.startswith('anonymous')}
+            files_after = {k: v for k, v in after.items() if not k.startswith('anonymous')}
+            leftover = [k for k, v in after.items() if k.startswith('anonymous')
+                        and any(it.name == 'm1' for it in (getattr(v, 'items', None) or []))]
+            if set(files_after) != set(files_before) or any(files_after[k] is not files_before[k] for k in files_before):
+                problems.append('failing attempt %d with a string main model: global repository holds the files %s, '
+                                'before the attempt %s' % (attempt, sorted(files_after), sorted(files_before)))
+                break
+            if leftover:
+                problems.append('failing attempt %d: the half-built string main model stays in the global repository '
+                                'as %s' % (attempt, leftover))
+                break
+        with open(os.path.join(tmp, 'lib', 'b.m'), 'w') as f:
+            f.write('item b1')
+        try:
+            m = mm.model_from_str('item m1 -> a1 item m2 -> b1')
+        except Exception as e:  # noqa
+            problems.append('after the repair the string load fails: %s: %s' % (type(e).__name__, str(e)[:80]))
+            return problems
+        if m.items[0].ref is not before['a.m'].items[0]:
+            problems.append('after the repair the reference to a1 does not point into the model cached before')
+        return problems
+    finally:
+        shutil.rmtree(tmp, ignore_errors=True)
+
+
 def explore(item):
     pi, = item
     ctx = Ctx(10000, max_paths=5000, free_selectors=True)
@@ -272,6 +344,15 @@ def main():
                 KINDS[ki], FILES[fi], r['provider'], gr, prior, probs[:2]),
                 {'file': fi, 'kind': ki, 'provider': pi, 'global_repo': gr, 'prior': prior})
         chk.sample({'provider': r['provider'], 'runs': r['paths'], 'clean': r['ok']})
+    for ki in range(len(KINDS)):
+        for pr in string_main_scenario(ki)[:1]:
+            if pr.startswith('harness'):
+                chk.harness_error(pr)
+            else:
+                chk.violation('%s in lib/b.m (string main model, GlobalRepo provider): %s' % (KINDS[ki], pr),
+                              {'string_main': ki})
+        paths += 1
+    chk.cov['bounds']['string_main'] = 'main model from a string, PlainNameGlobalRepo pattern, global repository (3 failure kinds)'
     if ok == 0:
         chk.harness_error('vacuous: no scenario passed')
     chk.cov['paths_explored'] = paths
@@ -282,5 +363,8 @@ def main():
 
 
 def replay(data):
+    if 'string_main' in data:
+        pr = string_main_scenario(data['string_main'])
+        return bool(pr), pr
     probs = scenario(data['file'], data['kind'], data['provider'], data['global_repo'], data['prior'])
     return bool(probs), probs[:3]
